@@ -259,6 +259,29 @@ class Repo:
                 dd.qual = q + k[len(old):]
                 self.defs[dd.qual] = dd
         self.__dict__.pop("_reloc_cache", None)
+        # a function moved to another module of the package and still importable under its
+        # old name (`from cubed.spec import check_array_specs` in cubed/core/array.py): every
+        # user of the old name gets the same object, so the anchor keeps its name
+        from .anchors import anchor_quals
+
+        wanted = anchor_quals()
+        for q in sorted(wanted):
+            if q in self.defs or "." not in q:
+                continue
+            mq, name = q.rsplit(".", 1)
+            m = self.modules.get(mq)
+            if m is None or name not in m.imports:
+                continue
+            t = self.canon(q)
+            if t.kind != "def" or not t.ref.is_func or t.ref.parent is not None or t.ref.name != name or t.ref.qual in wanted:
+                continue
+            d = t.ref
+            old = d.qual
+            self.relocations[q] = old
+            for k in [k for k in list(self.defs) if k == old or k.startswith(old + ".")]:
+                dd = self.defs.pop(k)
+                dd.qual = q + k[len(old):]
+                self.defs[dd.qual] = dd
         # renamed private helpers: found by the role they play for a stable caller
         from .anchors import ROLE_OF
 
